@@ -75,6 +75,7 @@ CFG = {
         "visited key was inserted by an operation invoked before the response); visited values are not judged. The sequential "
         "model keeps lane 0 only (a node of height h is on lanes 0..h-1 by construction; the harness checks the real lanes "
         "against the level field) and does not model the `level > hl` retry of LoadOrStore(Lazy), locks, flags or retries. "
+        "The lazy-constructor clause is additionally judged PER CALL on large histories (no search): rounds on a map pre-filled with 24-300 keys (towers differ per lane), 2-5 goroutines calling LoadOrStoreLazy on fresh keys adjacent to keys that 2-5 other goroutines Delete/Store/LoadAndDelete/LoadOrStore concurrently; every call carries a closure counter and Check.lazy_call_ok_b (C04_lazy_calls_b) requires calls <= 1, = 1 with the constructed value returned iff the call reports stored, = 0 when it reports loaded. "
         "Typed variants (Int64Map, StringMap, ...) do not exist in this fork: the generic comparator-based Map/Set are "
         "instantiated with int64, string, int under a reversed comparator, a struct key under a hand-written comparator, and the "
         "mutex wrappers MapSafe/SetSafe. Defects: D8 repaired by patches 0008/0009; two further defects found by the concurrent "
